@@ -38,7 +38,8 @@ def run(replay=None):
             'clamp/morton.3.u64.b/array.1.f64', 'clamp/hilbert.u64/array.2.f32',
             'linear.f32/clamp/strided.2.u64/array.1.f32', 'linear.f64/clamp/strided.3.u64/array.3.f64', 'linear.f32/clamp/morton.2.u64.p/array.2.f32',
             'clamp/linear.f32/strided.2.u64/array.1.f32', 'clamp/linear.f64/strided.1.u64/array.2.f64', 'clamp/affine/linear.f32/strided.2.u64/array.1.f32',
-            'clamp/nearest.f32/strided.2.u64/array.3.f32', 'nearest.f64/clamp/strided.2.u32/array.1.f64', 'clamp/clamp/identity.2.f64']
+            'clamp/nearest.f32/strided.2.u64/array.3.f32', 'nearest.f64/clamp/strided.2.u32/array.1.f64', 'clamp/clamp/identity.2.f64',
+            'clamp/shuffle.1-2-0/strided.3.u64/array.1.f32', 'clamp/shuffle.2-0-1/strided.3.i32/array.2.f64', 'clamp/nearest.f32/shuffle.1-2-0/strided.3.u64/array.1.f32']
     names = [n for n in dict.fromkeys(names + safe) if stacks.kind_of(n) is not None]
     runner = sc.StackRunner(chk, 'cl', names, shard_size=8)
     for s, log in runner.failed.items():
@@ -54,6 +55,8 @@ def run(replay=None):
             for l, kk in lk:
                 if l[0] in ('strided', 'morton', 'hilbert'):
                     sizes = [r.range(3, 5) for _ in range(2 if l[0] == 'hilbert' else int(l[1]))]
+                    if 'shuffle' in n:
+                        sizes = [2, 3, 5][j % 3:] + [2, 3, 5][:j % 3]   # pairwise different extents: an axis mix-up leaves the storage
             toks = []
             box = None
             below_interp = False
@@ -66,9 +69,16 @@ def run(replay=None):
                 elif t == 'clamp':
                     lo, hi = [], []
                     above_linear = any(x[0][0] == 'linear' for x in lk[idx + 1:])
+                    eff = list(sizes) if sizes else None
+                    for l2, _k2 in lk[idx + 1:]:
+                        if l2[0] == 'shuffle' and sizes:
+                            # the layer beneath receives component perm[i] of this layer's coordinate on its axis i
+                            perm = [int(x) for x in l2[1].split('-')]
+                            for i_, pj in enumerate(perm):
+                                eff[pj] = sizes[i_]
                     for q in range(kk.n):
                         if sizes:
-                            e = sizes[q]
+                            e = eff[q]
                             top = e - 2 if (above_linear or (below_interp and 'linear' in n)) else e - 1
                             a = r.range(0, top)
                             b = r.range(a, top)
@@ -142,7 +152,7 @@ def run(replay=None):
         good = [c for c, a in zip(cs, parts[1:]) if a.startswith('V')]
         dropped += len(cs) - len(good)
         # with a clamp on top of storage and a box inside the extents EVERY coordinate must be in-domain (theorem C10_clamp_safe_over_array)
-        if n.startswith('clamp/') and all(x[0] in ('strided', 'morton', 'hilbert', 'clamp') for x in stacks.parse(n)[1:-1]) and n.split('/')[-1].startswith('array') and len(good) != len(cs):
+        if n.startswith('clamp/') and all(x[0] in ('strided', 'morton', 'hilbert', 'clamp', 'shuffle') for x in stacks.parse(n)[1:-1]) and n.split('/')[-1].startswith('array') and len(good) != len(cs):
             chk.obligation_broken(f'model: clamp over array storage is not total for {n}', str([c for c in cs if c not in good][:2]))
         if not good:
             continue
